@@ -130,6 +130,8 @@ fn noise_run(out: &mut Out, c: &Cfg, ebn0_db: f32, salt: u64, rng: &mut Rng, nll
         "ma_e": e4(eng.sum_abs / eng.n as f64), "ma_r": e4(reference.sum_abs / reference.n as f64),
         "m2_e": e4(eng.sum_sq / eng.n as f64), "m2_r": e4(reference.sum_sq / reference.n as f64),
         "mean_e": e4(eng.sum / eng.n as f64), "uselag": uselag,
+        // every transmitted position must carry noise: number of distinct LLR values seen there (capped at 64) over `frames` frames
+        "pos_distinct": eng.pos_distinct.iter().map(|s| s.len()).collect::<Vec<_>>(), "frames": eng.frames,
         "lag_e": e4(eng.sum_lag1 / eng.n_lag1.max(1) as f64), "lag_r": e4(reference.sum_lag1 / reference.n_lag1.max(1) as f64)}));
 }
 
@@ -178,6 +180,10 @@ pub fn generate(a: &Args) {
         Cfg { ncw: 24, r: 12, psk8: true, pat: Some(vec![true, true, false, true]), il: Some(3) },
         Cfg { ncw: 36, r: 12, psk8: false, pat: Some(vec![true, false, true]), il: Some(-2) },
         Cfg { ncw: 35, r: 10, psk8: false, pat: Some(vec![true, true, true, false, true, true, true]), il: None },
+        // odd numbers of channel symbols per frame
+        Cfg { ncw: 21, r: 9, psk8: false, pat: None, il: None },
+        Cfg { ncw: 27, r: 12, psk8: true, pat: None, il: None },
+        Cfg { ncw: 20, r: 8, psk8: true, pat: Some(vec![true, true, true, false]), il: None },
     ];
     for c in &noise_cfgs {
         for db in [2.0f32, 6.0] { noise_run(&mut out, c, db, rng.next(), &mut rng, nllr); }
